@@ -110,9 +110,26 @@ def b_signum(ex, st, a, m, c):
     return T.ite(T.fcmp("flt", a[0], 0.0), -1.0, 1.0)
 
 
-@builtin(r"f64::<impl f64>::(is_nan)$", "f64::is_nan")
+@builtin(r"f64::<impl f64>::(is_nan|is_infinite|is_finite|is_normal|is_sign_negative|is_sign_positive)$", "f64 classification (a symbolic value is a finite real; IEEE special values are propagated concretely)")
 def b_isnan(ex, st, a, m, c):
-    return T.bnot(T.fcmp("feq", a[0], a[0]))
+    x = a[0]
+    if T.is_t(x) and x.op == "ite" and T._has_nf_leaf(x):
+        return T._lift1(lambda v: b_isnan(ex, st, [v], m, c), x)
+    k = m.group(1)
+    if not T.is_t(x):
+        import math
+        x = float(x)
+        return {"is_nan": x != x, "is_infinite": math.isinf(x), "is_finite": not (math.isinf(x) or x != x), "is_normal": not (math.isinf(x) or x != x or x == 0),
+                "is_sign_negative": math.copysign(1.0, x) < 0, "is_sign_positive": math.copysign(1.0, x) > 0}[k]
+    if k in ("is_nan", "is_infinite"):
+        return False
+    if k == "is_finite":
+        return True
+    if k == "is_sign_negative":
+        return T.fcmp("flt", x, 0.0)
+    if k == "is_sign_positive":
+        return T.fcmp("fle", 0.0, x)
+    return T.bnot(T.fcmp("feq", x, 0.0))
 
 
 @builtin(r"f64::<impl f64>::(tan|atan|asin|sinh|cosh|tanh|ln|log10|log2|exp2|cbrt)$", "uninterpreted transcendental")
@@ -723,6 +740,22 @@ def iter_next(ex, st, ref):
         ex.store(st, sub(ref, 2), i)
         ex.store(st, sub(ref, 3), j)
         return st, out
+    if k == "win2":
+        if f[1] is None:
+            items = []
+            while True:
+                st, x = iter_next(ex, st, sub(ref, 0))
+                if x is None:
+                    break
+                items.append(x)
+            ex.store(st, sub(ref, 1), Agg("tuple", items))
+            ex.store(st, sub(ref, 2), 0)
+            f = ex.load(st, ref).fields
+        items, i = f[1].fields, f[2]
+        if i + 1 >= len(items):
+            return st, None
+        ex.store(st, sub(ref, 2), i + 1)
+        return st, Agg("tuple", [items[i], items[i + 1]])
     raise Unsupported("iterator kind " + k)
 
 
@@ -905,3 +938,76 @@ def b_op_area(ex, st, a, m, c):
 @builtin(r"^<opaque::Shape as traits::Shape>::enclosing_radius$", "opaque shape: enclosing radius = symbolic constant")
 def b_op_radius(ex, st, a, m, c):
     return T.var("shape_R", "F")
+
+
+# ------------------------------------------------------------------------------- closures / Option / bits
+
+@builtin(r" as Fn(Mut|Once)?<\(.*\)>>::call(_mut|_once)?$", "Fn::call on a closure or fn item (arguments spread from the tuple)")
+def b_fn_call(ex, st, a, m, c):
+    f = a[0]
+    fval = ex.load(st, f) if isinstance(f, Ref) else f
+    args = list(a[1].fields)
+    return call_callable(ex, st, f if isinstance(f, Ref) else None, fval, args)
+
+
+@builtin(r"Option::<.*>::map::<", "Option::map")
+def b_opt_map(ex, st, a, m, c):
+    v = a[0]
+    if not isinstance(v, Enum):
+        raise Unsupported("Option::map on %r" % (v,))
+    fslot = scratch_iter(ex, st, a[1])
+    alts = []
+    for cnd, vn, f in v.alts:
+        if vn == "Some":
+            st, r = call_callable(ex, st, fslot, ex.load(st, fslot), [f[0]])
+            alts.append((cnd, "Some", [r]))
+        else:
+            alts.append((cnd, "None", []))
+    drop_scratch(st, fslot)
+    return st, Enum("Option", alts)
+
+
+@builtin(r"f64::<impl f64>::to_bits$", "f64::to_bits: concrete bits, or an order-embedding uninterpreted integer (axioms: monotone on x >= 0, >= 2^63 and order-reversing on x < 0)")
+def b_to_bits(ex, st, a, m, c):
+    x = a[0]
+    if not T.is_t(x):
+        import struct
+        return struct.unpack("<Q", struct.pack("<d", float(x)))[0]
+    return T.uf("to_bits", [x], "I")
+
+
+@builtin(r"^<(std::option::)?Option<(u64|usize|i64|u32|i32)> as Ord>::cmp$", "Option<int>::cmp (None < Some)")
+def b_opt_int_cmp(ex, st, a, m, c):
+    x, y = deref_arg(ex, st, a[0]), deref_arg(ex, st, a[1])
+    alts = []
+    for cx, vx, fx in x.alts:
+        for cy, vy, fy in y.alts:
+            cnd = T.band(cx, cy)
+            if cnd is False:
+                continue
+            if vx == "None" and vy == "None":
+                alts.append((cnd, "Equal"))
+            elif vx == "None":
+                alts.append((cnd, "Less"))
+            elif vy == "None":
+                alts.append((cnd, "Greater"))
+            else:
+                p, q = fx[0], fy[0]
+                lt, eq = T.icmp("ilt", p, q), T.icmp("ieq", p, q)
+                alts.append((T.band(cnd, lt), "Less"))
+                alts.append((T.band(cnd, eq), "Equal"))
+                alts.append((T.band(cnd, T.bnot(lt), T.bnot(eq)), "Greater"))
+    groups = {}
+    for cnd, name in alts:
+        if cnd is False:
+            continue
+        groups.setdefault(name, []).append(cnd)
+    out = [(T.bor(*cs), name, []) for name, cs in groups.items()]
+    if len(out) == 1:
+        out = [(True, out[0][1], [])]
+    return Enum("Ordering", out)
+
+
+@builtin(r" as Itertools>::tuple_windows::<\(&[\w:]+, &[\w:]+\)>$", "itertools::tuple_windows for pairs (adjacent items)")
+def b_tuplewin(ex, st, a, m, c):
+    return it("win2", a[0], None, 0)
